@@ -15,7 +15,7 @@ from .rules import pairs as PR
 from .rules import codes as CD
 from .rules import members as MB
 from .rules.arity import rule_arity
-from .rules.wiring import rule_passthrough_sort, rule_passthrough_engine, rule_counter, rule_globalidx, rule_sorted, rule_infresolve, rule_uniquefrom, rule_emptyidx, rule_fillnone, rule_aligned, rule_autorefuse, rule_autoparam, rule_blockbcast, rule_emptycohorts, rule_axisorder, rule_normform, rule_blocklabels, rule_axisrange, rule_qrange, rule_dtypenorm
+from .rules.wiring import rule_passthrough_sort, rule_passthrough_engine, rule_counter, rule_globalidx, rule_sorted, rule_infresolve, rule_uniquefrom, rule_emptyidx, rule_fillnone, rule_aligned, rule_autorefuse, rule_autoparam, rule_blockbcast, rule_emptycohorts, rule_axisorder, rule_normform, rule_absentmask, rule_blocklabels, rule_axisrange, rule_qrange, rule_dtypenorm
 
 PROPERTIES = {
     "C01": {
@@ -29,7 +29,7 @@ PROPERTIES = {
         "explanation": "R-DISPATCH over (kernel, engine) resolutions and engine-module bindings; R-STABLE over argsort sites; R-PASSTHROUGH[engine]: every stage runs with the engine the user chose; R-VARSHIFT; R-PAIRS[perm]; R-LAYOUT: no flattening in memory order; R-MISSINGCODE: every code producer sends NaN/NaT labels to -1; R-UNPERMUTE: results are put back in order with the inverse permutation",
     },
     "C05": {
-        "rules": [rule_truthy, rule_fillflow, rule_parallel, rule_counter, CD.rule_identitycodes, CD.rule_labelvalue, CD.rule_missingcode, M.rule_fillwiden, CD.rule_indexer, M.rule_fillcast, CD.rule_indexdir],
+        "rules": [rule_truthy, rule_fillflow, rule_parallel, rule_counter, CD.rule_identitycodes, CD.rule_labelvalue, CD.rule_missingcode, M.rule_fillwiden, CD.rule_indexer, M.rule_fillcast, CD.rule_indexdir, rule_absentmask],
         "thorough": [selftest, seeded_regression],
         "technique": "def-use fill-family + boolean-context scan; counter-wiring table check (custom AST checker)",
         "level_text": "Static, all-paths: no fill-value-typed expression (nor the optional min_count) is ever coerced to bool, so falsy "
@@ -99,7 +99,7 @@ PROPERTIES = {
         "explanation": "R-ALGEBRA (arg rows), R-ORDER, R-STABLE, R-KEYS, R-GLOBALIDX, R-CONTIG (tree nodes combine adjacent blocks in order: ties and first/last resolve positionally)",
     },
     "C07": {
-        "rules": [M.rule_sentinel_ravel, PR.rule_pairs_groupers, CD.rule_codewidth, CD.rule_identitycodes, CD.rule_labelvalue, CD.rule_closedside, CD.rule_missingcode, PR.rule_codedep, PR.rule_codelabels, PR.rule_pairs_transpose],
+        "rules": [M.rule_sentinel_ravel, PR.rule_pairs_groupers, CD.rule_codewidth, CD.rule_identitycodes, CD.rule_labelvalue, CD.rule_closedside, CD.rule_missingcode, PR.rule_codedep, PR.rule_codelabels, PR.rule_pairs_transpose, rule_absentmask],
         "thorough": [selftest, seeded_regression],
         "technique": "CFG must-pass-through of a masked sentinel restore",
         "level_text": "Static, all-paths: after the per-grouper codes are combined arithmetically, every path to return restores the "
